@@ -120,6 +120,7 @@ def run(prog: Program, rep: Report, tier: str):
     # conditioner's parameter vector is built with NonTrainable nodes as (static) leaves
     from .c09 import rule_constructor
     rule_constructor(prog, rep, R="C11.conditioner")
+    rule_frozen(prog, rep)
     # mixture weights stay normalised for every value of the raw array: the normaliser is recomputed from the wrapped
     # argument at every unwrap
     from .c05 import rule_mix
@@ -127,6 +128,74 @@ def run(prog: Program, rep: Report, tier: str):
     if tier == "thorough":
         from ..audit import audit_generic
         audit_generic(prog, rep, "C11")
+
+
+def rule_frozen(prog, rep, R="C11.frozen"):
+    """The min_scale offset is a constant of the flows' default transformer only through this chain:
+    _affine_with_min_scale freezes Loc(min_scale) with non_trainable (C11.range), non_trainable wraps the array in
+    a class K, and the conditioner's parameter partition (get_ravelled_pytree_constructor) keeps instances of the
+    classes L in its is_leaf test out of the parameter vector (C11.conditioner).  K must be L or a subclass."""
+    from .c12 import partition_calls
+    rep.rule(R, "the class non_trainable wraps inexact leaves in is one the conditioner-parameter partition "
+                "(get_ravelled_pytree_constructor) and the training partitions treat as a static leaf: the writer's "
+                "and the readers' notion of 'frozen' agree, so the min_scale offset of the default transformer is "
+                "not a conditioner output", minimum=2)
+    m0, fn0 = prog.func(W + "non_trainable")
+    got = Interp(prog).eval_function(W + "non_trainable", [("sym", "TREE")])
+    unwrappable = W + "AbstractUnwrappable"
+
+    def unwrappable_classes(t):
+        out = {}
+        for s in walk(t):
+            if s[0] == "call" and s[1][0] == "ext":
+                r = prog.lookup(s[1][1])
+                if r and r[0] == "class" and prog.is_subclass(r[1], unwrappable):
+                    out[r[1].qualname] = r[1]
+        return out
+    fmap = None
+    for s in walk(got):
+        if s[0] == "call" and s[1] == ("ext", "jax.tree_util.tree_map"):
+            fmap = dict(s[3]).get("f") or (s[2][0] if s[2] else None)
+    site0 = f"{m0.relpath}:{fn0.lineno}"
+    if fmap is None:
+        rep.undecided(R, site0, "non_trainable:wrapping-class", "no jax.tree_util.tree_map found in non_trainable")
+        return
+    wraps = unwrappable_classes(fmap)
+    if not wraps:
+        rep.violated(R, site0, "non_trainable:wrapping-class",
+                     f"the mapped function {show(fmap, 160)} wraps leaves in no AbstractUnwrappable at all")
+        return
+    for modname, fname in (("flowjax.utils", "get_ravelled_pytree_constructor"),
+                           ("flowjax.train.data_fit", "fit_to_data"),
+                           ("flowjax.train.variational_fit", "fit_to_variational_target")):
+        m = prog.modules.get(modname)
+        if m is None or fname not in m.functions:
+            rep.undecided(R, "-", f"{modname}.{fname}", "partition site vanished")
+            continue
+        fn = m.functions[fname]
+        site = f"{m.relpath}:{fn.lineno}"
+        _, pcalls = partition_calls(prog, m, fn)
+        if len(pcalls) != 1:
+            rep.undecided(R, site, f"{fname}:partition", f"expected one eqx.partition, found {len(pcalls)}")
+            continue
+        leaf = dict(next(iter(pcalls.values()))[3]).get("is_leaf")
+        leafcls = set()
+        if leaf is not None:
+            for s in walk(leaf):
+                if s[0] == "call" and s[1] == ("ext", "builtins.isinstance") and len(s[2]) == 2:
+                    for x in walk(s[2][1]):
+                        if x[0] == "ext":
+                            r = prog.lookup(x[1])
+                            if r and r[0] == "class":
+                                leafcls.add(r[1].qualname)
+        for kq, kc in sorted(wraps.items()):
+            ok = any(prog.is_subclass(kc, lq) or kq == lq for lq in leafcls)
+            rep.check(ok, R, site, f"{fname}:is_leaf covers {kq.rsplit('.', 1)[1]}",
+                      f"frozen nodes built by non_trainable ({kq}) are leaves of this partition",
+                      f"non_trainable wraps arrays in {kq}, which is not an instance of any class this partition's "
+                      f"is_leaf tests ({sorted(leafcls) or None}): the partition descends into it and the frozen array "
+                      f"(e.g. the min_scale offset of the default transformer) becomes a conditioner output / "
+                      f"optimiser parameter, so the scale is no longer bounded below by min_scale")
 
 
 POSITIVE_SITES = [  # (class, ctor args, field, what must be > 0)
